@@ -11,3 +11,89 @@ class MapStub:
 
     def update(self):
         rt.emit("update")
+
+
+class NodeStub:
+    """a node as the Network sees it (association is contracted separately on the real node classes)"""
+
+    def __init__(self, node_id):
+        self.id = node_id
+
+    def associate_network(self, network):
+        rt.emit("associate", self, network)
+
+    def remove_network(self):
+        rt.emit("remove", self)
+
+
+class BusStub:
+    """python-can bus: records the message handed to send()"""
+
+    def send(self, msg):
+        rt.emit("bus.send", msg.arbitration_id, rt.snapshot(msg.data), msg.is_remote_frame, msg.is_extended_id)
+
+    def send_periodic(self, msg, period):
+        rt.emit("bus.send_periodic", msg.arbitration_id, rt.snapshot(msg.data), msg.is_remote_frame,
+                msg.is_extended_id, period)
+        return TaskStub(msg, period)
+
+
+class TaskStub:
+    def __init__(self, msg, period):
+        self.msg = msg
+        self.period = period
+
+    def stop(self):
+        rt.emit("task.stop", self)
+
+
+class ScannerStub:
+    def on_message_received(self, can_id):
+        rt.emit("scanner", can_id)
+
+
+class NotifyNet:
+    """network whose notify() either returns or raises (chosen by the oracle)"""
+
+    def notify(self, can_id, data, timestamp):
+        rt.emit("notify", can_id, data, timestamp)
+        if rt.choose_bool("notify_raises"):
+            raise ValueError("handler failed")
+
+
+class MsgStub:
+    def __init__(self, arbitration_id, data, timestamp, is_error_frame, is_remote_frame):
+        self.arbitration_id = arbitration_id
+        self.data = data
+        self.timestamp = timestamp
+        self.is_error_frame = is_error_frame
+        self.is_remote_frame = is_remote_frame
+
+
+class SdoChanStub:
+    """an SDO channel as a node sees it: tx/rx COB-ids and the two handlers"""
+
+    def __init__(self, rx_cobid, tx_cobid):
+        self.rx_cobid = rx_cobid
+        self.tx_cobid = tx_cobid
+        self.network = None
+
+    def on_response(self, can_id, data, timestamp):
+        rt.emit("on_response", self)
+
+    def on_request(self, can_id, data, timestamp):
+        rt.emit("on_request", self)
+
+
+class HandlerStub:
+    def __init__(self):
+        self.network = None
+
+    def on_heartbeat(self, can_id, data, timestamp):
+        rt.emit("on_heartbeat", self)
+
+    def on_emcy(self, can_id, data, timestamp):
+        rt.emit("on_emcy", self)
+
+    def on_command(self, can_id, data, timestamp):
+        rt.emit("on_command", self)
